@@ -255,4 +255,51 @@ def witnessBox : Trace :=
   [⟨.alloc, h 1 1⟩, ⟨.retain, h 1 1⟩, ⟨.retain, h 1 1⟩, ⟨.retain, h 1 1⟩, ⟨.use, h 1 1⟩, ⟨.release, h 1 1⟩]
 
 
+/-! ## walks over a variant payload (`CloneUserSum` / `ReleaseUserSum`)
+
+`clone_usersum_recursive` and `release_usersum_recursive` walk the words of a variant payload element by element and
+retain / release the boxed reference found in every reference element. The word offset of element `i` is the SUM of
+the word sizes of the elements before it. -/
+
+/-- one payload element: its size in words and whether it is a (one-word) boxed reference -/
+structure Elem where
+  size : Nat
+  isRef : Bool
+deriving DecidableEq, Repr
+
+/-- word offsets of the reference elements, accumulated word sizes (what both walks of the pinned VM compute) -/
+def trueOffsets : List Elem → Nat → List Nat
+  | [], _ => []
+  | e :: es, o => (if e.isRef then [o] else []) ++ trueOffsets es (o + e.size)
+
+/-- the offsets a walk computes when it uses the element INDEX as word offset (seeded change C12a) -/
+def indexOffsets : List Elem → Nat → List Nat
+  | [], _ => []
+  | e :: es, i => (if e.isRef then [i] else []) ++ indexOffsets es (i + 1)
+
+/-- the refcount traffic of a walk: one `kd` operation on the handle stored in every visited word
+(`wordAt words o = none`: the word is not a handle, or the offset is outside the payload) -/
+def wordAt : List (Option Key) → Nat → Option Key
+  | [], _ => none
+  | w :: _, 0 => w
+  | _ :: ws, n + 1 => wordAt ws n
+
+def walk (kd : Kind) (words : List (Option Key)) : List Nat → Trace
+  | [] => []
+  | o :: offs => match wordAt words o with
+    | some k => ⟨kd, k⟩ :: walk kd words offs
+    | none => walk kd words offs
+
+/-- traffic of `let s = C(…)  { let l = C(payload containing s) }` for a payload with word contents `words`, layout
+`layout`, clone walk over `cloneOffs`, release walk over the true offsets: insert `s`, clone walk (embedding copies the
+handle), insert `l`, release walk over `l`'s payload when `l` dies, removal of `l`, then `s` goes out of scope -/
+def embedFrame (s l : Key) (words : List (Option Key)) (layout : List Elem) (cloneOffs : List Nat) : Trace :=
+  [⟨.alloc, s⟩] ++ walk .retain words cloneOffs ++ [⟨.alloc, l⟩] ++ walk .release words (trueOffsets layout 0)
+    ++ [⟨.release, l⟩, ⟨.free, l⟩, ⟨.release, s⟩, ⟨.free, s⟩]
+
+/-- how often a walk touches handle `k` -/
+def visits (words : List (Option Key)) (k : Key) : List Nat → Nat
+  | [] => 0
+  | o :: offs => (if wordAt words o = some k then 1 else 0) + visits words k offs
+
 end Mimium.Heap
